@@ -47,6 +47,10 @@ def gen_plan(seed, i, tier):
         return {'settle': True, 'builder': b}
 
     init = some_init()
+    if rng.chance(0.3):
+        # the stored layout other tools leave: shapes in front of their parent node, shapes moved below added nodes
+        init['edits'] = [{'op': rng.choice(['AddNode', 'SetParentNode', 'SetParentNode', 'MoveBlocks', 'MoveBlocks']), 'shape': rng.below(8), 'salt': rng.below(1 << 30)}
+                         for _ in range(rng.range(1, 4))]
     dest = rng.weighted([('same', 3), ('fresh', 4), ('other', 3)])
     plan = {'property': PROP, 'profile': 'clone', 'run_index': i, 'init': init, 'dest': dest, 'timeout_s': 90, 'destroy_dest_first': rng.chance(0.5)}
     if dest == 'other':
